@@ -393,3 +393,15 @@ def f64_bits_str(x):
 
 def bits_to_float(s):
     return struct.unpack('<d', struct.pack('<Q', int(s.lstrip('x'), 16)))[0]
+
+
+def cargo_build_subset(build, features):
+    """the repository's own toolchain on the scratch copy with exactly this feature subset: (succeeded, tail of the compiler output)"""
+    tdir = os.path.join(front.CACHE, 'target-subset')
+    os.makedirs(tdir, exist_ok=True)
+    cmd = ['cargo', 'build', '--offline', '--lib', '--no-default-features', '--features', ','.join(sorted(features))]
+    with open(os.path.join(tdir, '.mirsym.lock'), 'w') as lk:
+        fcntl.flock(lk, fcntl.LOCK_EX)
+        r = subprocess.run(cmd, cwd=build.scratch, env=dict(front.ENV, CARGO_TARGET_DIR=tdir), capture_output=True, text=True)
+    errs = [l for l in r.stderr.splitlines() if l.startswith('error')]
+    return r.returncode == 0, ('; '.join(errs[:3]) or r.stderr[-300:])
